@@ -1,3 +1,5 @@
+//go:build verif_c14
+
 package main
 
 // C14 — damaged or hostile input yields errors, not crashes.
